@@ -117,6 +117,10 @@ class Reduction(ArrayExpr):
 
     def _accept_slice(self, slice_expr):
         """Accept a slice being pushed through this Reduction."""
+        if self.array.dtype == object:
+            # The input's blocks are not arrays (argtopk pairs values with
+            # their positions): a getitem left on them cannot be computed.
+            return None
         reduced_axes = set(self.axis)
 
         def make_result(sliced_input, input_index):
